@@ -95,6 +95,8 @@ func constStringArgs(ci ssa.CallInstruction, from int) []string {
 			for _, e := range elems {
 				if s, ok := constString(e); ok {
 					out = append(out, s)
+				} else if tab, isT := tableFieldConsts(e); isT {
+					out = append(out, tab...)
 				}
 			}
 		}
@@ -257,6 +259,10 @@ func checkC12(c *Check) {
 								for _, e := range elems {
 									if s, isC := constString(e); isC {
 										queued[s] = true
+									} else if tab, isT := tableFieldConsts(e); isT {
+										for _, k := range tab {
+											queued[k] = true
+										}
 									}
 								}
 							}
@@ -270,6 +276,16 @@ func checkC12(c *Check) {
 				ks := constStringArgs(ci, 2)
 				if len(ks) > 0 {
 					hset[ks[0]] = true
+				}
+				// key taken from a table of constants: any of them
+				if args := callArgs(ci); len(args) > 2 {
+					if elems, isLit := sliceLitElems(args[2]); isLit && len(elems) > 0 {
+						if tab, isT := tableFieldConsts(elems[0]); isT {
+							for _, k := range tab {
+								hset[k] = true
+							}
+						}
+					}
 				}
 			case "HMSet", "HSetMap":
 				for _, a := range callArgs(ci)[2:] {
